@@ -1,11 +1,36 @@
-from jsim.envs.base import Adapter
+"""JobShop: rules written from docs/environments/job_shop.md and the class docstring.
+
+N jobs, each a sequence of operations (op = (machine, duration)); M machines. Time advances by one
+per step. At time t every machine picks a job or the no-op (index num_jobs). Picking job j on
+machine m is legal iff m is idle, the next unscheduled op of j needs m, j is not running on any
+machine and j is unfinished; the no-op is always legal. A picked op starts at t and runs to
+completion (start + duration). Reward -1 per step. The episode ends when every op has been
+processed (finished schedule), on an illegal action, or when all machines are inactive at the same
+time; the last two carry the penalty -num_jobs * max_num_ops * max_op_duration.
+
+Everything below is derived from the *schedule* (`scheduled_times`, `ops_durations`,
+`ops_machine_ids`, `step_count`); the env's bookkeeping (`machines_remaining_times`,
+`machines_job_ids`, `ops_mask`, `action_mask`) is what gets judged against it.
+"""
+from __future__ import annotations
+
+from typing import Any, Dict, List, Optional, Tuple
+
+import numpy as np
+
 from jsim.envs._mk import cfg
+from jsim.envs.base import Adapter
 
 
 class A(Adapter):
     name = "JobShop"
     mask_mode = "per_agent"
     terminate_on_invalid = True
+    has_invalid_effect = True
+    has_constraints = True
+    has_objective = True
+    has_model = True
+    has_observer = True
 
     def configs(self):
         return [
@@ -28,3 +53,271 @@ class A(Adapter):
 
     def inspec_action(self, env, rng):
         return [int(rng.integers(0, env.num_jobs + 1)) for _ in range(env.num_machines)]
+
+    def base_action(self, s, env, legal):
+        # the no-op index is num_jobs (last column of the mask); it depends on the configuration
+        return [int(legal.shape[1]) - 1] * int(legal.shape[0])
+
+    # ---- the schedule as the rules see it ----------------------------------------------------------
+    @staticmethod
+    def _penalty(c: Dict[str, Any]) -> float:
+        return -float(c["j"] * c["o"] * c["d"])
+
+    @staticmethod
+    def _view(s: Any) -> Dict[str, Any]:
+        mach = np.asarray(s.ops_machine_ids).astype(np.int64)
+        dur = np.asarray(s.ops_durations).astype(np.int64)
+        sch = np.asarray(s.scheduled_times).astype(np.int64)
+        M = int(np.asarray(s.machines_remaining_times).shape[0])
+        J, O = mach.shape
+        valid = mach >= 0  # padded ops carry machine id -1
+        started = valid & (sch >= 0)
+        end = np.where(started, sch + dur, 0)
+        job_until = end.max(axis=1) if O else np.zeros(J, np.int64)  # time at which the job's last started op completes
+        mach_until = np.zeros(M, np.int64)  # time at which the machine's last started op completes
+        mach_job = np.full(M, -1, np.int64)  # job of that op
+        for j, k in np.argwhere(started):
+            m = int(mach[j, k])
+            if 0 <= m < M and end[j, k] > mach_until[m]:
+                mach_until[m] = end[j, k]
+                mach_job[m] = j
+        nxt = np.full(J, -1, np.int64)  # next op of each job = first real op that has not been started
+        for j in range(J):
+            todo = np.flatnonzero(valid[j] & (sch[j] < 0))
+            if len(todo):
+                nxt[j] = todo[0]
+        return {"mach": mach, "dur": dur, "sch": sch, "valid": valid, "started": started, "end": end, "job_until": job_until,
+                "mach_until": mach_until, "mach_job": mach_job, "next": nxt, "now": int(s.step_count), "J": J, "O": O, "M": M}
+
+    # ---- C04 -----------------------------------------------------------------------------------------
+    def legal(self, s: Any, env: Any) -> np.ndarray:
+        v = self._view(s)
+        J, M, now = v["J"], v["M"], v["now"]
+        out = np.zeros((M, J + 1), bool)
+        out[:, J] = True  # no-op always
+        for m in range(M):
+            if v["mach_until"][m] > now:
+                continue  # machine busy
+            for j in range(J):
+                k = int(v["next"][j])
+                if k < 0:
+                    continue  # job finished
+                if v["job_until"][j] > now:
+                    continue  # one of the job's ops is still running (on whatever machine)
+                if int(v["mach"][j, k]) == m:
+                    out[m, j] = True
+        return out
+
+    def describe(self, s, env, idx):
+        v = self._view(s)
+        m, j = int(idx[0]), int(idx[1])
+        if j == v["J"]:
+            return f"machine {m}: no-op"
+        k = int(v["next"][j])
+        need = int(v["mach"][j, k]) if k >= 0 else None
+        return (f"t={v['now']} machine {m} (busy until {int(v['mach_until'][m])}, remaining_times={int(np.asarray(s.machines_remaining_times)[m])}) "
+                f"job {j}: next op {k} needs machine {need}, job busy until {int(v['job_until'][j])}")
+
+    # ---- C05 -----------------------------------------------------------------------------------------
+    def invalid_effect(self, ps, action, illegal, s, ts, env, cfg):
+        if int(ts.step_type) != 2:
+            return ("invalid_action_not_terminal", f"step_type {int(ts.step_type)} after an illegal action (machines {illegal})")
+        want = self._penalty(cfg)
+        if not np.isclose(float(ts.reward), want, rtol=1e-5, atol=1e-6):
+            return ("invalid_action_reward", f"reward {float(ts.reward)} != documented penalty {want}")
+        if float(ts.discount) != 0.0:
+            return ("invalid_action_discount", f"discount {float(ts.discount)} != 0 on the terminal step")
+        return None
+
+    # ---- C06 -----------------------------------------------------------------------------------------
+    @staticmethod
+    def _all_inactive(pv: Dict[str, Any], action: Any) -> bool:
+        """No machine works during [t, t+1): nothing is running at t and every machine plays the no-op."""
+        return bool(all(int(a) == pv["J"] for a in action) and (pv["mach_until"] <= pv["now"]).all())
+
+    def constraints(self, hist, env, cfg):
+        last = hist[-1]
+        v = self._view(last.state)
+        J, O, M, now = v["J"], v["O"], v["M"], v["now"]
+        mach, dur, sch, valid, started, end = v["mach"], v["dur"], v["sch"], v["valid"], v["started"], v["end"]
+        # the schedule replayed from the recorded actions: action[m] == j at time t starts the next op of j on m at t
+        rsch = np.full((J, O), -1, np.int64)
+        cnt = [0] * J
+        for t, r in enumerate(h for h in hist[1:] if not h.post_terminal):
+            for m, j in enumerate(r.action):
+                j = int(j)
+                if j >= J:
+                    continue
+                real = np.flatnonzero(valid[j])
+                if cnt[j] >= len(real):
+                    return ("op_beyond_last", f"job {j} was scheduled at t={t} although all its {len(real)} ops had been scheduled")
+                k = int(real[cnt[j]])
+                if int(mach[j, k]) != m:
+                    return ("op_on_wrong_machine", f"op {k} of job {j} needs machine {int(mach[j, k])} but was started on machine {m} at t={t}")
+                if rsch[j, k] >= 0:
+                    return ("op_started_twice", f"op {k} of job {j} started at {int(rsch[j, k])} and again at {t}")
+                rsch[j, k] = t
+                cnt[j] += 1
+        if not np.array_equal(rsch, sch):
+            j, k = np.argwhere(rsch != sch)[0]
+            return ("schedule_disagrees_with_history", f"scheduled_times[{j},{k}]={int(sch[j, k])} but the action history started it at {int(rsch[j, k])}")
+        if (sch[~valid] >= 0).any():
+            j, k = np.argwhere(~valid & (sch >= 0))[0]
+            return ("padded_op_scheduled", f"padding op [{j},{k}] has scheduled time {int(sch[j, k])}")
+        if (sch[started] >= now).any():
+            j, k = np.argwhere(started & (sch >= now))[0]
+            return ("op_scheduled_in_future", f"op [{j},{k}] scheduled at {int(sch[j, k])} but the clock is {now}")
+        for j in range(J):  # precedence + one op of a job at a time
+            real = np.flatnonzero(valid[j])
+            for a, b in zip(real[:-1], real[1:]):
+                if sch[j, b] >= 0:
+                    if sch[j, a] < 0:
+                        return ("job_order", f"job {j}: op {b} started at {int(sch[j, b])} before op {a} was started")
+                    if sch[j, b] < end[j, a]:
+                        return ("job_ops_overlap", f"job {j}: op {b} starts at {int(sch[j, b])} before op {a} ends at {int(end[j, a])}")
+        for m in range(M):  # a machine works on one op at a time
+            iv = sorted((int(sch[j, k]), int(end[j, k]), int(j), int(k)) for j, k in np.argwhere(started & (mach == m)))
+            for p, q in zip(iv[:-1], iv[1:]):
+                if q[0] < p[1]:
+                    return ("machine_ops_overlap", f"machine {m}: op {q[2:]} starts at {q[0]} before op {p[2:]} ends at {p[1]}")
+        if len(hist) > 1 and int(last.ts.step_type) == 2:
+            pv = self._view(last.prev_state)
+            if not self._all_inactive(pv, last.action):  # the documented "simultaneously idle" ending is not a completion
+                if (valid & ~started).any():
+                    j, k = np.argwhere(valid & ~started)[0]
+                    return ("incomplete_at_completion", f"episode ended by completion but op [{j},{k}] was never scheduled")
+                if end.max() > now:
+                    return ("unfinished_at_completion", f"episode ended by completion at t={now} but an op runs until {int(end.max())}")
+        return None
+
+    # ---- C08 -----------------------------------------------------------------------------------------
+    def objective(self, hist, env, cfg):
+        last = hist[-1]
+        if len(hist) < 2 or int(last.ts.step_type) != 2:
+            return None
+        v = self._view(last.state)
+        if (v["valid"] & ~v["started"]).any():
+            return None  # not a finished schedule (idle / illegal ending: documented penalty, not judged)
+        if self._all_inactive(self._view(last.prev_state), last.action):
+            return None
+        return -float(v["end"].max())  # minus makespan
+
+    # ---- C09 -----------------------------------------------------------------------------------------
+    def model_step(self, ps, action, s, ts, env, cfg):
+        pv = self._view(ps)
+        J, O, M, t = pv["J"], pv["O"], pv["M"], pv["now"]
+        act = [int(a) for a in action]
+        leg = self.legal(ps, env)
+        illegal = [m for m in range(M) if not leg[m, act[m]]]
+        last = int(ts.step_type) == 2
+        pen = self._penalty(cfg)
+        if illegal:  # the successor state is unspecified; only reward and termination are documented
+            if not last:
+                return ("termination", f"illegal action on machines {illegal} but step_type {int(ts.step_type)}")
+            if not np.isclose(float(ts.reward), pen, rtol=1e-5, atol=1e-6):
+                return ("reward", f"reward {float(ts.reward)} after an illegal action, documented penalty {pen}")
+            return None
+        # legal joint action: ops start now
+        sch = pv["sch"].copy()
+        for m, j in enumerate(act):
+            if j < J:
+                sch[j, int(pv["next"][j])] = t
+        if int(s.step_count) != t + 1:
+            return ("clock", f"step_count {int(s.step_count)} expected {t + 1}")
+        got = np.asarray(s.scheduled_times)
+        if not np.array_equal(got, sch):
+            j, k = np.argwhere(got != sch)[0]
+            return ("scheduled_times", f"scheduled_times[{j},{k}]={int(got[j, k])} expected {int(sch[j, k])} (action {act} at t={t})")
+        for name in ("ops_machine_ids", "ops_durations"):
+            if not np.array_equal(np.asarray(getattr(s, name)), np.asarray(getattr(ps, name))):
+                return ("instance_changed", f"{name} changed during the episode")
+        v = self._view(s)  # successor schedule == predicted schedule (just compared) viewed at t + 1
+        want_mask = v["valid"] & ~v["started"]
+        if not np.array_equal(np.asarray(s.ops_mask).astype(bool), want_mask):
+            j, k = np.argwhere(np.asarray(s.ops_mask).astype(bool) != want_mask)[0]
+            return ("ops_mask", f"ops_mask[{j},{k}]={bool(np.asarray(s.ops_mask)[j, k])} but the op is {'not ' if want_mask[j, k] else ''}scheduled")
+        rem = np.clip(v["mach_until"] - (t + 1), 0, None)
+        grem = np.asarray(s.machines_remaining_times)
+        if not np.array_equal(grem, rem):
+            m = int(np.flatnonzero(grem != rem)[0])
+            return ("machines_remaining_times", f"machine {m}: remaining time {int(grem[m])} expected {int(rem[m])} (its last op ends at {int(v['mach_until'][m])}, clock {t + 1})")
+        gid = np.asarray(s.machines_job_ids)
+        for m in range(M):
+            if rem[m] > 0:
+                ok = int(gid[m]) == int(v["mach_job"][m])
+                exp = f"{int(v['mach_job'][m])}"
+            elif v["mach_until"][m] == t + 1:
+                # the op completed exactly now: the docs do not say whether the finished job or the no-op is shown
+                ok = int(gid[m]) in (int(v["mach_job"][m]), J)
+                exp = f"{int(v['mach_job'][m])} or no-op {J}"
+            else:
+                ok = int(gid[m]) == J  # machine did nothing during this time step
+                exp = f"no-op {J}"
+            if not ok:
+                return ("machines_job_ids", f"machine {m}: job id {int(gid[m])} expected {exp}")
+        idle = self._all_inactive(pv, act)
+        finished = not want_mask.any() and int(v["end"].max()) <= t + 1
+        want_reward = pen if idle else -1.0
+        if not np.isclose(float(ts.reward), want_reward, rtol=1e-5, atol=1e-6):
+            return ("reward", f"reward {float(ts.reward)} expected {want_reward} (all machines inactive={idle}, finished={finished})")
+        if last != (idle or finished):
+            return ("termination", f"step_type {int(ts.step_type)} but the rules say done={idle or finished} (all machines inactive={idle}, finished={finished})")
+        return None
+
+    # ---- C11 (structural horizon only; kept for completeness) --------------------------------------------
+    def end_cause(self, ps, action, s, ts, env, cfg):
+        act = [int(a) for a in action]
+        leg = self.legal(ps, env)
+        if any(not leg[m, a] for m, a in enumerate(act)):
+            return "invalid_action"
+        if self._all_inactive(self._view(ps), act):
+            return "all_machines_idle"
+        v = self._view(s)
+        if not (v["valid"] & ~v["started"]).any() and int(v["end"].max()) <= v["now"]:
+            return "schedule_finished"
+        return None
+
+    # ---- C12 -----------------------------------------------------------------------------------------
+    def observe(self, s, obs, env, cfg):
+        for name in ("ops_machine_ids", "ops_durations", "ops_mask", "machines_job_ids", "machines_remaining_times", "action_mask"):
+            a, b = np.asarray(getattr(obs, name)), np.asarray(getattr(s, name))
+            if a.shape != b.shape or not np.array_equal(a, b):
+                where = np.argwhere(a != b)[0].tolist() if a.shape == b.shape else f"shapes {a.shape} vs {b.shape}"
+                return (name, f"observation.{name} differs from the state at {where}")
+        return None
+
+    # ---- policies --------------------------------------------------------------------------------------
+    def policy_complete(self, s, env, rng, legal):
+        """Greedy: every machine starts some legal job if there is one, else no-op."""
+        if legal is None:
+            return None
+        J = legal.shape[1] - 1
+        out = []
+        taken = set()
+        for m in range(legal.shape[0]):
+            opts = [int(j) for j in np.flatnonzero(legal[m, :J]) if int(j) not in taken]
+            if opts:
+                j = opts[int(rng.integers(0, len(opts)))]
+                taken.add(j)
+                out.append(j)
+            else:
+                out.append(J)
+        return out
+
+    def policy_survive(self, s, env, rng, legal):
+        """Stall as long as the rules allow: one machine keeps working, the others wait."""
+        if legal is None:
+            return None
+        J = legal.shape[1] - 1
+        out = [J] * legal.shape[0]
+        v = self._view(s)
+        if (v["mach_until"] > v["now"]).any():
+            return out  # something is running: everybody else can wait
+        for m in range(legal.shape[0]):
+            opts = np.flatnonzero(legal[m, :J])
+            if len(opts):
+                # longest next op first
+                durs = [int(v["dur"][j, int(v["next"][j])]) for j in opts]
+                out[m] = int(opts[int(np.argmax(durs))])
+                return out
+        return out
